@@ -21,6 +21,7 @@ done
 mkdir -p $root
 if [ ! -d $root/repo ]; then git -C /repo worktree add -q --detach $root/repo HEAD || exit 2; fi
 git -C $root/repo checkout -q -- . && git -C $root/repo clean -fdq -e target
+git -C $root/repo checkout -q --detach "$(git -C /repo rev-parse HEAD)"   # follow /repo (fix: commits)
 if ! git -C $root/repo apply "$patch"; then echo "patch does not apply"; exit 2; fi
 mkdir -p $root/verif
 rsync -a --delete --exclude target --exclude work --exclude .git --exclude replays /verif/ $root/verif/
